@@ -8,3 +8,4 @@ WRAP int  w_2d_getitem (A2* a, Py_ssize_t i, Py_ssize_t j) { int r = 0; W_TRY r 
 WRAP void w_2d_setitem_scalar (A2* a, PyObject* idx, int v) { W_TRY a->setitem_scalar (idx, v); W_CATCH }
 WRAP void w_2d_setitem_vector (A2* a, PyObject* idx, const A2* d) { W_TRY a->setitem_vector (idx, *d); W_CATCH }
 WRAP void w_2d_setitem_scalar_mask (A2* a, const A2* m, int v) { W_TRY a->setitem_scalar_mask (*m, v); W_CATCH }
+WRAP void w_2d_setitem_array1d (A2* a, PyObject* idx, const FixedArray<int>* d) { W_TRY a->setitem_array1d (idx, *d); W_CATCH }
